@@ -527,6 +527,126 @@ def rule_f8(F):
     return r
 
 
+def rule_f9(F):
+    """The drops at the end of a block are skipped when the type checker says the block's last expression diverges. For a `match`
+    that is a conjunction over ALL arms: inside the loop over the arms, the accumulator `acc &= arm_diverges` is updated on every
+    iteration path (an arm that is left out - e.g. a guarded one - makes a match that can complete normally count as diverging,
+    and the enclosing block then leaks its locals)."""
+    r = RuleResult("C03.F9", "divergence of a match is accumulated over every arm (no iteration path of the arm loop skips the `&=`)", floor=1)
+    n = 0
+    for b in F.bodies_in(["src/typechecker/expr.rs", "src/typechecker/mod.rs", "src/typechecker/function.rs"]):
+        if not b.mir:
+            continue
+        upd = {}
+        for bi, blk in enumerate(b.blocks):
+            for st in blk["stmts"]:
+                if st["k"] == "assign" and st["rv"]["k"] == "bin" and st["rv"]["op"] == "BitAnd" and mir.is_place_op(st["rv"]["a"]) \
+                        and st["rv"]["a"][1] == st["p"] and b.mir["locals"][st["p"][0]]["ty"] == "bool":
+                    upd.setdefault(st["p"][0], []).append((bi, st.get("line", 0)))
+        if not upd:
+            continue
+        loops = mir.natural_loops(b)
+        for l, sites in upd.items():
+            for h, nodes in loops:
+                mine = {x[0] for x in sites if x[0] in nodes}
+                if not mine:
+                    continue
+                seen, work, skip = set(), [x for x in mir.succs(b.blocks[h]) if x in nodes and x not in mine], False
+                while work:
+                    x = work.pop()
+                    if x in seen:
+                        continue
+                    seen.add(x)
+                    for sx in mir.succs(b.blocks[x]):
+                        if sx == h:
+                            skip = True
+                        if sx in nodes and sx not in mine and sx not in seen:
+                            work.append(sx)
+                n += 1
+                r.inst("%s accumulator #%d" % (hir.last(b.path), n), {"fn": b.path, "update_lines": sorted({x[1] for x in sites if x[0] in mine}), "skippable": skip})
+                if skip:
+                    r.bad(b.path, "accumulator update skipped on some iteration", relfile(b.file), min(x[1] for x in sites if x[0] in mine),
+                          "the `&=` accumulation is not executed on every path through the loop body: elements for which it is skipped are ignored by the conjunction "
+                          "(a match whose guarded arm completes normally is then treated as diverging and the enclosing block's drops are omitted)")
+    return r
+
+
+# constructs whose child may be skipped at run time: (pattern prefix, position of that child among the pattern's bindings)
+CONDITIONAL_CHILD = {"Expr::While": 1, "Expr::For": 2}
+
+
+def rule_f10(F):
+    """'Diverges' (the flag that lets the lowerer omit the drops at the end of a block, and the type checker accept a block without
+    a final value) may only be inherited from sub-expressions that are evaluated on every execution: not from the body of a
+    `while`/`for` (zero iterations) nor from the right operand of `&&`/`||` (short circuit)."""
+    r = RuleResult("C03.F10", "divergence is inherited only from sub-expressions that are always evaluated (not loop bodies, not short-circuited operands)", floor=3)
+
+    def feeds_result(arm_body, child_local):
+        """Does the result of checking `child_local` flow into the arm's value?"""
+        body = hir.strip(arm_body)
+        tail = body.get("expr") if body.get("k") == "block" else body
+        res_locals = {hir.res_local(n) for n in hir.walk(tail or {}) if n.get("k") == "path" and hir.res_local(n) is not None}
+
+        def checks_child(e):
+            for c in hir.nodes(e, "mcall"):
+                if c["m"] in ("block", "expr") and any(hir.res_local(hir.peel_refs(hir.strip(a))) == child_local for a in c["args"]):
+                    return True
+            return False
+        if tail is not None and checks_child(tail):
+            return True
+        for n in hir.walk(body):
+            k = n.get("k")
+            if k in ("assignop", "assign") and hir.res_local(hir.peel_refs(hir.strip(n["lhs"]))) in res_locals and checks_child(n["rhs"]):
+                return True
+            if k == "letstmt" and n["pat"].get("k") == "bind" and n["pat"]["local"] in res_locals and n.get("init") is not None and checks_child(n["init"]):
+                return True
+        return False
+    eb = None
+    bb = None
+    for p in F.paths():
+        if p.endswith("TypeChecker>::expr") and "typechecker::expr" in p:
+            eb = F.body(p)
+        if p.endswith("TypeChecker>::binop") and "typechecker::expr" in p:
+            bb = F.body(p)
+    if eb is None or bb is None:
+        r.missing("TypeChecker::expr / TypeChecker::binop")
+        return r
+    ms = hir.find_match_on(eb.hir["value"], "Expr::", min_arms=10)
+    for arm in (ms[0]["arms"] if ms else []):
+        alt = hir.pat_alternatives(arm["pat"])[0].split("(")[0]
+        if alt not in CONDITIONAL_CHILD:
+            continue
+        binds = hir.pat_bindings(arm["pat"])
+        pos = CONDITIONAL_CHILD[alt]
+        if pos >= len(binds):
+            r.missing("%s pattern with %d bindings" % (alt, pos + 1))
+            continue
+        bad = feeds_result(arm["body"], binds[pos][1])
+        r.inst("%s body" % alt, {"construct": alt, "body_divergence_inherited": bad})
+        if bad:
+            r.bad(eb.path, "%s inherits the divergence of its body" % alt, relfile(eb.file), arm["line"],
+                  "%s is marked diverging when its body diverges, although the body may run zero times: the enclosing block then omits its end-of-block drops (locals leak on the fall-through path) "
+                  "and a function body may end without a value" % alt.split("::")[1])
+    bm = hir.find_match_on(bb.hir["value"], "BinOp::", min_arms=4)
+    epos = [i for i, p_ in enumerate(bb.hir["params"]) if "Meta<ast::Expr>" in (p_.get("ty") or "")]
+    right_local = None
+    if len(epos) >= 2:
+        pp = bb.hir["params"][epos[1]]
+        right_local = pp.get("local") if pp.get("k") == "bind" else None
+    for arm in (bm[-1]["arms"] if bm else []):
+        alts = hir.pat_alternatives(arm["pat"])
+        if not ({"BinOp::And", "BinOp::Or"} & set(alts)):
+            continue
+        bad = right_local is not None and feeds_result(arm["body"], right_local)
+        r.inst("And/Or right operand", {"right_operand_divergence_inherited": bad})
+        if right_local is None:
+            r.missing("right operand parameter of TypeChecker::binop")
+        if bad:
+            r.bad(bb.path, "&&/|| inherits the divergence of its right operand", relfile(bb.file), arm["line"],
+                  "`a && b` / `a || b` is marked diverging when b diverges, although b is skipped when a decides: the enclosing block then omits its end-of-block drops on the short-circuit path")
+    return r
+
+
 def rules(ctx):
     F = ctx["F"]
-    return [rule_f1(F), rule_f2(F), rule_f3(F), rule_f4(F), rule_f5(F), rule_f6(F), rule_f7(F), rule_f8(F)]
+    return [rule_f1(F), rule_f2(F), rule_f3(F), rule_f4(F), rule_f5(F), rule_f6(F), rule_f7(F), rule_f8(F), rule_f9(F), rule_f10(F)]
